@@ -1,4 +1,5 @@
 """Per-property texts, assumptions and claim status (source of MANIFEST.json)."""
+import static_checks
 
 LOCALITY = ("byte-range locality: a contract proved for separately allocated exact-size buffers (is_fresh) is applied "
             "to disjoint byte ranges inside larger objects (sub-ranges of bulk buffers, the tweak field next to the "
@@ -41,6 +42,83 @@ PROPS = {
         "text": "return value == (pointers non-NULL && length in range) for every unsigned length, empty frame on rejection, and for "
                 "accepted lengths the unpacked tweakey is REQUIRED to equal key bytes followed by zeros (loop invariants of set_tk2/3).",
         "assumptions": [COMPOSE],
+    },
+    "C03": {
+        "claimed": True,
+        "technique": "CBMC contracts (lock-step with the explicit inverse round) + loop-free inversion lemmas over the generated spec",
+        "text": "SKINNY: decrypt is proved equal to the EXPLICIT inverse rounds applied in reverse order; the lemma inv_round(round(x,rk),rk) == x and "
+                "its converse hold for all states and round keys; vector decrypt functions meet the same contract per witness lane; the dispatchers call "
+                "only functions of the requested direction. MANTIS: forward/backward step cancellation, middle-layer and whitening involution lemmas; "
+                "swap_modes swaps k0/k0' and xors alpha with tweak and rounds in its frame's complement.",
+        "assumptions": [COMPOSE, "D o E = id follows from the per-round lemmas by induction on the round count (meta)",
+                        "swap o swap = id and swap == re-keying in the other mode follow from the field-level contracts of swap_modes and set_key (xor with alpha is an involution)"],
+    },
+    "C05": {
+        "claimed": True,
+        "technique": "CBMC contracts in two layers: byte-level lemmas on fixed small objects + unbounded coverage loop contracts with ghost stream position",
+        "text": "layer A: skinny_xor / block xor (witness byte), inc_counter and the SIMD lane increment (big-endian add incl. every carry and wrap, other "
+                "lanes unchanged), E on the counter block (C01/C02; SIMD: witness lane), set_counter (left zero padding, every length 0..block, NULL), "
+                "init (counter 0; SIMD lanes j). Layer B (size <= 2^40 symbolic, in-place or disjoint): every data byte is combined exactly once, in order, "
+                "with the keystream byte whose absolute position matches; position advances exactly with the data, so splitting calls cannot matter.",
+        "assumptions": [COMPOSE, "composition lemma A+B -> out[k] == in[k] ^ KS(c, k) (one paragraph, DESIGN 5/C05; trusted)",
+                        "in the coverage layer the data writes of replaced callees are abstracted (extent asserted, content irrelevant)", LOCALITY],
+    },
+    "C06": {
+        "claimed": True,
+        "technique": "corollary: all back ends are proved against the SAME contracts; residual cross-back-end clause as separate obligation (known finding D5)",
+        "text": "generic, 128-bit and 256-bit back ends meet identical abstract contracts (init, set_counter, encrypt coverage with lanes-consecutive "
+                "invariant, error returns, wrappers pass arguments through unchanged); the one place where they differ - stream position after a key or "
+                "tweak change in mid-stream - is encoded as an explicit obligation and reported as KNOWN-FINDING D5.",
+        "assumptions": [COMPOSE, "parallel ECB: by C07 (every back end == block-by-block spec)"],
+    },
+    "C07": {
+        "claimed": True,
+        "technique": "CBMC contracts in two layers: vector block functions in lock-step per witness lane + dispatcher coverage loop contracts (real indirect calls)",
+        "text": "layer A: every vector block function (vec128 in quick, vec256 in thorough): witness lane output == spec cipher of that lane's block "
+                "(Mantis: under that lane's tweak). Layer B: dispatchers hand every block exactly once to a block function of the right direction at the "
+                "right offset with the object's schedule for every size <= 2^40; non-multiples of the block -> 0, empty frame; parallel_size is a positive "
+                "multiple of the block consistent with the selected back end.",
+        "assumptions": [COMPOSE, "GCC's lane-wise semantics of vector >> (2.2a rewrite)", "data writes of replaced callees abstracted in layer B"],
+    },
+    "C09": {
+        "claimed": True,
+        "technique": "CBMC contracts with exact-extent is_fresh buffers, pointer/bounds checks, assigns frames; overlap wrapper contracts with symbolic offsets",
+        "text": "every pointer argument is an object of exactly the advertised size, so one byte outside fails a pointer check and one byte written "
+                "outside the output fails the frame; single-block functions proved for input = buf+a, output = buf+b with symbolic a,b (every overlap, "
+                "every alignment); bulk functions for output == input and disjoint buffers; call extents inside [0,size) asserted at every callee call.",
+        "assumptions": ["CBMC's byte-precise memory model has no alignment faults (the library assumes x86 unaligned access when SKINNY_UNALIGNED)", LOCALITY],
+    },
+    "C11": {
+        "claimed": True,
+        "technique": "consequence of the functional contracts: locals and heap are nondeterministic in CBMC",
+        "text": "every functional postcondition (schedule == spec(key), output == spec, counter lanes, return values) is proved for ALL values of "
+                "uninitialised locals and malloc'ed bytes, which excludes any dependence on them; undefined-behaviour checks are on in every job.",
+        "assumptions": [COMPOSE, "struct padding bytes and cross-process/compiler differences are not modelled"],
+    },
+    "C12": {
+        "claimed": True,
+        "technique": "the same contracts re-proved under each compile-time path (guarded hook H1)",
+        "text": "the scalar ciphers, tweakey schedules, Mantis and the block xor / counter helpers are proved against the same specification under all 8 "
+                "combinations of SKINNY_64BIT x SKINNY_UNALIGNED x SKINNY_LITTLE_ENDIAN (3 non-default ones in quick, all in thorough).",
+        "assumptions": ["GCC-vs-Clang code generation, optimisation levels and Clang's ext_vector_type spelling are NOT decided by this technique (C semantics only)",
+                        "SIMD-off stubs: only the probes' contract (returns 0 when compiled out) - the stub vtables are never selected"],
+    },
+    "C14": {
+        "claimed": True,
+        "technique": "CBMC function contracts with conditional (empty) frames",
+        "text": "for every int-returning public function and back-end operation: return value == (arguments valid && object live) over the full "
+                "symbolic argument space, and on 0 the assigns clause is EMPTY (conditional assigns), so the object and all memory are untouched; "
+                "NULL object, NULL vtable (zeroed / cleaned-up), NULL context (failed init) are ordinary cases of the same contracts.",
+        "assumptions": [COMPOSE],
+    },
+    "C18": {
+        "claimed": True,
+        "technique": "frame contracts (assigns clauses) + mechanical scan for writable static objects",
+        "text": "sufficient condition for data-race freedom, not an exploration of schedules: (i) every function's frame lies in objects reachable "
+                "from its own non-const arguments; (ii) block functions and dispatchers have an empty frame on the shared schedule / object; (iii) no "
+                "object file of the library contains a writable object of static storage duration (objdump section scan); the CPU probes have assigns().",
+        "assumptions": ["C11 memory model: disjoint write footprints + read-only sharing => no data race (trusted)", "no interleaving is executed"],
+        "static": [static_checks.c18_no_mutable_statics],
     },
     "C13": {
         "claimed": True,
